@@ -57,7 +57,7 @@ fn gen_log_world(seed: u64, idx: usize) -> LogWorldScenario {
     for i in 0..nt {
         let path = if i > 0 && rng.chance(1, 6) { format!("t00/n{:02}", i) } else { format!("t{:02}", i) };
         for c in &cmds {
-            cmd_files.push(CmdFile { target: path.clone(), command: c.clone(), rel: WorldSpec::default_cmd_rel(&path, c), exec: true });
+            cmd_files.push(CmdFile { target: path.clone(), command: c.clone(), rel: WorldSpec::default_cmd_rel(&path, c), exec: true, broken: false });
         }
         targets.push(TargetSpec { path, ..Default::default() });
     }
@@ -97,7 +97,17 @@ fn gen_log_world(seed: u64, idx: usize) -> LogWorldScenario {
             script.behav[bi].outs.push(OutStep { fd, hex: hex(&v), pause_ms: 0 });
         }
     }
+    if rng.chance(1, 6) && script.behav.len() >= 2 {
+        // one task fails (its own log and the logs of every task that completed must still be exact);
+        // it is released last so that the others have completed
+        let bi = rng.below(script.behav.len());
+        script.behav[bi].code = *rng.pick(&[1, 3, 70]);
+        script.prio = vec![(script.behav[bi].target.clone(), 1)];
+    }
     script.strategy = *rng.pick(&[Strategy::Uniform, Strategy::Uniform, Strategy::PlanOrder, Strategy::Reverse, Strategy::HoldM]);
+    if !script.prio.is_empty() {
+        script.strategy = Strategy::Prio;
+    }
     script.sched_seed = rng.next_u64();
     script.flush_ms = if real_pause { None } else { Some(*rng.pick(&[5u64, 20, 100, 500])) };
     script.workers = Some(*rng.pick(&[1u32, 2, 4, 16]));
@@ -201,11 +211,21 @@ fn exec_log_world(sc: &LogWorldScenario) -> Outcome {
         out.probe(&k, v);
     }
     out.sim_ms = sc.script.behav.iter().flat_map(|b| b.outs.iter().map(|o| o.pause_ms as u64)).sum();
-    if tr.hang.is_some() || tr.code() != Some(0) {
-        out.violate("capture_ok", "run_failed", format!("run with succeeding children did not succeed: hang {:?} exit {:?} {}", tr.hang, tr.code(), tr.stderr_str().trim()));
+    let scripted_failure = sc.script.behav.iter().any(|b| b.code != 0);
+    let want_code = if scripted_failure { 1 } else { 0 };
+    if tr.hang.is_some() || tr.code() != Some(want_code) {
+        out.violate("capture_ok", "run_failed", format!("run did not end as its children dictate: hang {:?} exit {:?} (expected {}) {}", tr.hang, tr.code(), want_code, tr.stderr_str().trim()));
         return out;
     }
-    let written = written_logs(&tr);
+    let mut written = written_logs(&tr);
+    if scripted_failure {
+        out.fault("failing_task_in_a_group_with_output", 1);
+        // only tasks that ran to completion under monorail's eyes are judged (success, or error with a code)
+        if let Some(doc) = tr.result_json() {
+            let rg = crate::runworld::result_groups(&doc);
+            written.retain(|k, _| rg.iter().any(|(c, gs)| *c == k.2 && gs.iter().any(|g| g.get(&k.1).map(|r| r.status == "success" || (r.status == "error" && r.code.is_some())).unwrap_or(false))));
+        }
+    }
     let stored = match stored_logs(&w, &tr, &sc.spec, &sc.script.opts.commands) {
         Ok(s) => s,
         Err(e) => {
@@ -218,7 +238,7 @@ fn exec_log_world(sc: &LogWorldScenario) -> Outcome {
         return out;
     }
     // log show: one header per selected non-empty log followed by exactly its bytes
-    for (ts, cs, so, se) in &sc.shows {
+    for (ts, cs, so, se) in sc.shows.iter().filter(|_| !scripted_failure) {
         let mut a = vec!["log".to_string(), "show".into()];
         if *so {
             a.push("--stdout".into());
